@@ -240,6 +240,23 @@ func (r *rw) isBuiltin(id *ast.Ident, name string) bool {
 
 func (r *rw) expr(e ast.Expr) ast.Expr {
 	switch x := e.(type) {
+	case *ast.SelectorExpr:
+		// timers and sleeps belong to the environment: when a timer fires is the harness's choice
+		if pk, ok := x.X.(*ast.Ident); ok {
+			if pn, ok := r.info.Uses[pk].(*types.PkgName); ok && pn.Imported().Path() == "time" {
+				switch x.Sel.Name {
+				case "NewTimer", "After", "Sleep", "AfterFunc", "Timer":
+					r.counts["time"]++
+					r.usedVS = true
+					n := &ast.SelectorExpr{X: ast.NewIdent("vs"), Sel: ast.NewIdent(x.Sel.Name)}
+					if tt := r.typeOf(x); tt != nil {
+						r.xtype[n] = tt
+					}
+					return n
+				}
+			}
+		}
+		return e
 	case *ast.UnaryExpr:
 		if x.Op != token.ARROW || r.commRecv[x] {
 			return e
@@ -266,6 +283,20 @@ func (r *rw) expr(e ast.Expr) ast.Expr {
 					r.xtype[c] = tt
 				}
 				return c
+			}
+		}
+		// os.OpenFile goes through the environment seam too: the host may take its time
+		// (a FIFO without a writer, a network file system)
+		if sel, ok := x.Fun.(*ast.SelectorExpr); ok && sel.Sel.Name == "OpenFile" && len(x.Args) == 3 {
+			if pk, ok := sel.X.(*ast.Ident); ok {
+				if pn, ok := r.info.Uses[pk].(*types.PkgName); ok && pn.Imported().Path() == "os" {
+					r.counts["openfile"]++
+					c := r.vs("OpenFile", x.Args...)
+					if tt := r.typeOf(x); tt != nil {
+						r.xtype[c] = tt
+					}
+					return c
+				}
 			}
 		}
 		id, ok := x.Fun.(*ast.Ident)
@@ -612,6 +643,12 @@ func main() {
 		}
 		if r.usedVS {
 			addImport(f, "vs", vsPath)
+		}
+		for _, is := range f.Imports {
+			// every use of package time may have been rewritten: keep the import used
+			if p, _ := strconv.Unquote(is.Path.Value); p == "time" && (is.Name == nil || is.Name.Name == "time") && r.counts["time"] > 0 {
+				f.Decls = append(f.Decls, &ast.GenDecl{Tok: token.VAR, Specs: []ast.Spec{&ast.ValueSpec{Names: []*ast.Ident{ast.NewIdent("_")}, Type: &ast.SelectorExpr{X: ast.NewIdent("time"), Sel: ast.NewIdent("Duration")}}}})
+			}
 		}
 		f.Comments = nil
 		var buf bytes.Buffer
